@@ -381,6 +381,26 @@ class Sim:
             self.clean = False
         return None
 
+    def op_rescale(self, op):
+        """The user changes the solver scaling (ref/ref0/res_ref) of some outputs; it takes effect at the next
+        setup() of the same Problem (the stubs declare their outputs from the plan at every setup).  The unscaled
+        twin ignores it."""
+        if 'unscaled' in self.variant:
+            return
+        for c in self.world['comps']:
+            for o in c['outs']:
+                if o['name'] in op['scales']:
+                    for k_ in ('ref', 'ref0', 'res_ref'):
+                        o.pop(k_, None)
+                    o.update(op['scales'][o['name']])
+        self.probes.inc('solver_scaling_changed_before_resetup')
+
+    def op_set_discrete(self, op):
+        ivc = B.comp_by_name(self.world)['ivc']
+        name = ivc['discrete_out'][0]['name']
+        self.p.set_val(name if ivc['prom'] else 'ivc.' + name, op['val'])
+        self.clean = False
+
     def op_fault(self, op):
         self.rt.arm([{k: op[k] for k in ('comp', 'method', 'n', 'kind')}])
 
